@@ -168,6 +168,28 @@ CHECKS["C06"] = (
     "The derivation of hGalerkin from the strong form (Green's identity) is not formalised; spsolve is a trusted "
     "contract; rounding not modelled (partial).")
 
+CHECKS["C18"] = (
+    "Lean 4 proof over an executable model of _reix/restrict/join/split/extrusion index algebra "
+    "+ exact correspondence + exact-rational failing-input search on operation compositions",
+    "Theorems for all cell lists, selections, tag sets and point lists: renumbering by rank is order "
+    "preserving, injective, onto 0..n-1, carries coordinates (cells keep their point sets, validity and "
+    "shared-vertex structure preserved); the facet table commutes with order preserving renumberings, "
+    "hence restrict's newf shortcut designates, in the REBUILT facet table of the restricted mesh, the "
+    "same facet (and -1 exactly for facets of no kept cell); subdomain maps of restrict/remove_elements "
+    "(any order of the selection); a history of restrictions is one restriction; deduplication merges "
+    "iff coordinates are equal and keeps every cell's coordinates (+, @ for any number of meshes, with a "
+    "counterexample theorem for the pinned @); split maps (child i*nt+k, parent j % nt, subdomain "
+    "blocks), every quadrilateral edge is a facet of the split mesh and the shared-iterator lookup of "
+    "to_meshtri returns its position when the tag is visited in ascending order; extrusion "
+    "connectivity and points; scaling multiplies 2x2/3x3 determinants by the product of the factors, "
+    "mirror is an involution (2-D, 3-D) and negates the 2-D determinant.  Ten model functions are "
+    "compared exactly with the implementation on every run; the full statement (validity, same cells as "
+    "exact coordinate tuples, exact measures, shared-vertex structure, tag designation, returned maps, "
+    "tiling by children) is evaluated on single operations and random compositions of 2-4 operations.",
+    "Search only (no theorem): tiling of hexahedra/prisms by the tet templates, morphed, trace, oriented, "
+    "the repaired boundary map of remove_duplicate_nodes, mirror determinant in 3-D; orientation flags of "
+    "tags are outside the statement (F13).  Known finding FC18d (second-order surgery) is listed in known_findings.json (partial).")
+
 NOT_YET = {}
 
 
